@@ -1,5 +1,9 @@
 import PsV.Proofs.Monotone
+import PsV.Proofs.MonoTail
+import PsV.Proofs.MonoCoords
 import PsV.Props.C11
+import PsV.Proofs.FitQuad
+import Mathlib.LinearAlgebra.Matrix.Notation
 /-!
 # C10 — the monotonic fit's back-transform yields a surface that is non-decreasing along the
 monotonic dimension on the fully supported region
@@ -23,6 +27,23 @@ Property theorems only (helpers in `PsV.Proofs.Monotone`).
                               ≥ 2-d monotonic fit (`… ⊗ I ⊗ …` in the monotonic slot) is not the change of basis
                               (`… ⊗ LᵀL ⊗ …`) — `fixes/C10-1.diff`.
 The non-negativity of the T-coefficients on *every* exit of the solver is `block3_nonneg_invariant` (Props/C11).
+
+Second part (§8–§10; helpers in `PsV.Proofs.MonoTail`, `PsV.Proofs.MonoCoords`):
+* `float_cumsum_nonneg`, `rounded_cumsum_monotone`, `nearest_rounding_monotone`, `ieee_cumsum_monotone` : the float
+                              hypothesis reduced to "the addition returns a nearest representable number";
+* `backTransform_monotone`  : the whole tail of `glamfit_complex` (rescale, double → float, cumulative sum), any shape,
+                              any non-negative solver output;
+* `cumsum_diff_inverse`, `increments_nonneg_iff`, `cumMat_spec` : the change of variables `c = L t` as a bijection /
+                              a matrix, `L t` = the loop, image of the non-negative orthant = what the driver decides;
+* `spline_value_monotone_1d`, `C10_surface_monotone`, `C10_surface_monotone_B`, `C10_fit_surface_monotone` : non-decreasing
+                              coefficients ⇒ non-decreasing **values** of `specEval` along the monotonic dimension, n-D,
+                              every order, sorted knots with repetitions;
+* `tobjective_eq`, `inactive_constraint_B`, `inactive_constraint_cumsum`, `inactive_constraint_objective`,
+  `code_objective_1d` : the inactive-constraint clause for the same objective (abstract normal equations, the
+                              cumulative-sum change of variables of any shape, the objective `objective P` of the
+                              specification of C09; the code's 1-d assembly is that objective);
+* `inactive_clause_fails_for_code_penalty` : a 2 × 2 problem on which the matrix the unrepaired code assembles gives a
+                              monotonic fit different from the unconstrained one although the constraint is inactive.
 -/
 namespace PsV
 open Finset
@@ -395,5 +416,483 @@ theorem penalty_factor_differs :
   rw [e] at h00
   norm_num [L] at h00
 
+
+/-! ## 8. the change of variables of the monotonic fit, for all shapes
+
+`c = L t`, `L = I_{s1} ⊗ (lower-triangular ones)_n ⊗ I_{s2}`; `cumsumLoop` computes `L t`, `diffAlong` computes `L⁻¹ c`. -/
+
+/-- every coefficient the loop produces from increments `≥ z` is itself `≥ z` (what the check reports as
+`mono:negative-coefficient` when violated) -/
+theorem float_cumsum_nonneg {α : Type} [LinearOrder α] (z : α) (add : α → α → α)
+    (hadd : ∀ a s, z ≤ a → s ≤ add a s) (s1 n s2 : Nat) (out : Nat → α)
+    (hout : ∀ p, p < s1 * n * s2 → z ≤ out p) :
+    ∀ i, i < s1 → ∀ j, j < n → ∀ k, k < s2 → z ≤ cumsumLoop add s1 n s2 out (idx3 n s2 i j k) := by
+  intro i hi j hj k hk
+  rw [cumsumLoop_spec add out n s2 s1 hi hj hk]
+  induction j with
+  | zero => exact hout _ (idx3_lt hi hj hk)
+  | succ j ih =>
+    exact le_trans (ih (by omega)) (csum_mono_step z add hadd out n s2 i k j (hout _ (idx3_lt hi hj hk)))
+
+example : ∀ i, i < 2 → ∀ j, j < 3 → ∀ k, k < 2 →
+    0 ≤ cumsumLoop (fun a s : Nat => (a + s + 1) / 2 * 2) 2 3 2 (fun p => 7 * p % 5) (idx3 3 2 i j k) :=
+  float_cumsum_nonneg 0 _ (fun a s _ => by omega) 2 3 2 _ (fun _ _ => Nat.zero_le _)
+
+/-- **Float storage, hypothesis reduced to the two defining properties of a rounding.**  `add a s = rnd (plus a s)`
+with `rnd` monotone and the identity on representable numbers (`R`; every value the loop reads is representable: the
+increments are floats, and every running sum has been rounded): the rounded cumulative sum of non-negative increments is
+non-decreasing.  IEEE round-to-nearest (also composed double → float) is such an `rnd`. -/
+theorem rounded_cumsum_monotone {α : Type} [LinearOrder α] (z : α) (plus : α → α → α) (rnd : α → α) (R : α → Prop)
+    (hplus : ∀ a s, z ≤ a → s ≤ plus a s)
+    (hmono : ∀ a b, a ≤ b → rnd a ≤ rnd b) (hfix : ∀ a, R a → rnd a = a) (hrep : ∀ a, R (rnd a))
+    (s1 n s2 : Nat) (out : Nat → α)
+    (hR : ∀ p, p < s1 * n * s2 → R (out p)) (hout : ∀ p, p < s1 * n * s2 → z ≤ out p) :
+    ∀ i, i < s1 → ∀ j, j + 1 < n → ∀ k, k < s2 →
+      cumsumLoop (fun a s => rnd (plus a s)) s1 n s2 out (idx3 n s2 i j k)
+        ≤ cumsumLoop (fun a s => rnd (plus a s)) s1 n s2 out (idx3 n s2 i (j+1) k) := by
+  intro i hi j hj k hk
+  rw [cumsumLoop_spec _ out n s2 s1 hi (by omega) hk, cumsumLoop_spec _ out n s2 s1 hi hj hk]
+  have hrepj : ∀ j', j' < n → R (csum (fun a s => rnd (plus a s)) out n s2 i k j') := by
+    intro j' hj'
+    cases j' with
+    | zero => exact hR _ (idx3_lt hi hj' hk)
+    | succ j'' => exact hrep _
+  show csum _ out n s2 i k j ≤ rnd (plus (out (idx3 n s2 i (j+1) k)) (csum _ out n s2 i k j))
+  calc csum (fun a s => rnd (plus a s)) out n s2 i k j
+      = rnd (csum (fun a s => rnd (plus a s)) out n s2 i k j) := (hfix _ (hrepj j (by omega))).symm
+    _ ≤ _ := hmono _ _ (hplus _ _ (hout _ (idx3_lt hi hj hk)))
+
+/-- non-vacuity: rounding to the nearest even integer (upwards) on `Int`; representable = even -/
+example : (∀ a s : Int, 0 ≤ a → s ≤ a + s) ∧ (∀ a b : Int, a ≤ b → (a + 1) / 2 * 2 ≤ (b + 1) / 2 * 2) ∧
+    (∀ a : Int, a % 2 = 0 → (a + 1) / 2 * 2 = a) ∧ (∀ a : Int, ((a + 1) / 2 * 2) % 2 = 0) ∧
+    (∀ p, p < 2 * 3 * 2 → (fun p : Nat => (2 * (7 * p % 5 : Nat) : Int)) p % 2 = 0) :=
+  ⟨fun a s _ => by omega, fun a b _ => by omega, fun a _ => by omega, fun a => by omega,
+    fun p _ => by show (2 * ((7 * p % 5 : Nat) : Int)) % 2 = 0; omega⟩
+
+/-- **Round-to-nearest is such a rounding.**  Any selector `rnd` of a nearest element of a set `F` of representable numbers
+(`rnd a ∈ F`, no element of `F` is closer to `a` — the definition of IEEE-754 round-to-nearest away from overflow, whatever
+the tie rule) is monotone and fixes `F`; so is the composition of two of them with `F ⊆ F'` (a double-precision addition
+stored into a `float`). -/
+theorem nearest_rounding_monotone {α : Type} [Field α] [LinearOrder α] [IsStrictOrderedRing α] (F : α → Prop)
+    (rnd : α → α) (hF : ∀ a, F (rnd a)) (hnear : ∀ a f, F f → |a - rnd a| ≤ |a - f|) :
+    (∀ a b, a ≤ b → rnd a ≤ rnd b) ∧ (∀ a, F a → rnd a = a) := by
+  have key : ∀ a fa fb : α, fb < fa → |a - fa| ≤ |a - fb| → fa + fb ≤ 2 * a := by
+    intro a fa fb hlt h
+    rcases abs_cases (a - fa) with ⟨h1, h1'⟩ | ⟨h1, h1'⟩ <;> rcases abs_cases (a - fb) with ⟨h2, h2'⟩ | ⟨h2, h2'⟩ <;>
+      linarith
+  have key' : ∀ b fa fb : α, fb < fa → |b - fb| ≤ |b - fa| → 2 * b ≤ fa + fb := by
+    intro b fa fb hlt h
+    rcases abs_cases (b - fa) with ⟨h1, h1'⟩ | ⟨h1, h1'⟩ <;> rcases abs_cases (b - fb) with ⟨h2, h2'⟩ | ⟨h2, h2'⟩ <;>
+      linarith
+  refine ⟨fun a b hab => ?_, fun a ha => ?_⟩
+  · by_contra hlt
+    have hlt : rnd b < rnd a := not_le.mp hlt
+    have h1 := key a (rnd a) (rnd b) hlt (hnear a (rnd b) (hF b))
+    have h2 := key' b (rnd a) (rnd b) hlt (hnear b (rnd a) (hF a))
+    have : a = b := le_antisymm hab (by linarith)
+    subst this
+    exact lt_irrefl _ hlt
+  · have := hnear a a ha
+    rw [sub_self, abs_zero] at this
+    have h0 : |a - rnd a| = 0 := le_antisymm this (abs_nonneg _)
+    have := abs_eq_zero.mp h0
+    linarith
+
+/-- non-vacuity: `F = {0, 1}` inside `ℚ`, `rnd` = the nearer of the two (tie at `1/2` downwards) -/
+example : (∀ a : ℚ, (fun q : ℚ => q = 0 ∨ q = 1) ((fun q : ℚ => if q ≤ 1/2 then (0 : ℚ) else 1) a)) ∧
+    (∀ a f : ℚ, (f = 0 ∨ f = 1) → |a - (fun q : ℚ => if q ≤ 1/2 then (0 : ℚ) else 1) a| ≤ |a - f|) := by
+  refine ⟨fun a => ?_, fun a f hf => ?_⟩
+  · show (if a ≤ 1/2 then (0 : ℚ) else 1) = 0 ∨ (if a ≤ 1/2 then (0 : ℚ) else 1) = 1
+    split <;> simp
+  · show |a - (if a ≤ 1/2 then (0 : ℚ) else 1)| ≤ |a - f|
+    rcases hf with rfl | rfl <;> split <;>
+      rcases abs_cases (a - 0) with ⟨e1, _⟩ | ⟨e1, _⟩ <;> rcases abs_cases (a - 1) with ⟨e2, _⟩ | ⟨e2, _⟩ <;> linarith
+
+/-- the float cumulative sum with an IEEE-style addition `fl(a + s)` = a nearest representable number to the exact sum:
+no hypothesis on the arithmetic beyond that definition -/
+theorem ieee_cumsum_monotone {α : Type} [Field α] [LinearOrder α] [IsStrictOrderedRing α] (F : α → Prop)
+    (rnd : α → α) (hF : ∀ a, F (rnd a)) (hnear : ∀ a f, F f → |a - rnd a| ≤ |a - f|)
+    (s1 n s2 : Nat) (out : Nat → α)
+    (hR : ∀ p, p < s1 * n * s2 → F (out p)) (hout : ∀ p, p < s1 * n * s2 → 0 ≤ out p) :
+    ∀ i, i < s1 → ∀ j, j + 1 < n → ∀ k, k < s2 →
+      cumsumLoop (fun a s => rnd (a + s)) s1 n s2 out (idx3 n s2 i j k)
+        ≤ cumsumLoop (fun a s => rnd (a + s)) s1 n s2 out (idx3 n s2 i (j+1) k) := by
+  obtain ⟨hm, hfix⟩ := nearest_rounding_monotone F rnd hF hnear
+  exact rounded_cumsum_monotone 0 (· + ·) rnd F (fun a s ha => le_add_of_nonneg_left ha) hm hfix hF s1 n s2 out hR hout
+
+/-- non-vacuity: exact arithmetic is the rounding with every number representable; increments `p % 3` -/
+example : (∀ a : ℚ, (fun _ : ℚ => True) (id a)) ∧ (∀ a f : ℚ, True → |a - id a| ≤ |a - f|) ∧
+    (∀ p, p < 2 * 3 * 2 → (0 : ℚ) ≤ (fun p : Nat => ((p % 3 : Nat) : ℚ)) p) :=
+  ⟨fun _ => trivial, fun a f _ => by simp, fun p _ => by positivity⟩
+
+/-- **The tail of `glamfit_complex` for a monotonic fit** (`backTransform`: scale the normalised solution back in double,
+convert to float, cumulative sum in float), for every shape and every solver output `x ≥ 0` (which
+`block3_nonneg_invariant` of C11 guarantees on every exit of the non-negative solver): the coefficient table is
+non-negative and non-decreasing along the monotonic index, and passes the check the driver executes. -/
+theorem backTransform_monotone {δ φ : Type} [Preorder δ] [LinearOrder φ] (zd : δ) (zf : φ)
+    (mulS : δ → δ) (toF : δ → φ) (add : φ → φ → φ)
+    (hmul : ∀ a, zd ≤ a → zd ≤ mulS a) (htoF : ∀ a, zd ≤ a → zf ≤ toF a) (hadd : ∀ a s, zf ≤ a → s ≤ add a s)
+    (s1 n s2 : Nat) (x : Nat → δ) (hx : ∀ p, p < s1 * n * s2 → zd ≤ x p) :
+    (∀ i, i < s1 → ∀ j, j + 1 < n → ∀ k, k < s2 →
+      backTransform mulS toF add s1 n s2 x (idx3 n s2 i j k)
+        ≤ backTransform mulS toF add s1 n s2 x (idx3 n s2 i (j+1) k)) ∧
+    (∀ i, i < s1 → ∀ j, j < n → ∀ k, k < s2 → zf ≤ backTransform mulS toF add s1 n s2 x (idx3 n s2 i j k)) ∧
+    monoAlongB (fun a b => decide (a ≤ b)) s1 n s2 (backTransform mulS toF add s1 n s2 x) = true := by
+  have h0 : ∀ p, p < s1 * n * s2 → zf ≤ (fun p => toF (mulS (x p))) p :=
+    fun p hp => htoF _ (hmul _ (hx p hp))
+  exact ⟨float_cumsum_monotone zf add hadd s1 n s2 _ h0, float_cumsum_nonneg zf add hadd s1 n s2 _ h0,
+    float_cumsum_monoAlongB zf add hadd s1 n s2 _ h0⟩
+
+example : (∀ a : Nat, 0 ≤ a → 0 ≤ 3 * a) ∧ (∀ a : Nat, 0 ≤ a → (0 : Int) ≤ (a : Int)) ∧
+    monoAlongB (fun a b => decide (a ≤ b)) 2 3 2
+      (backTransform (fun a : Nat => 3 * a) (fun a => (a : Int)) (fun a s : Int => (a + s + 1) / 2 * 2) 2 3 2
+        (fun p => 7 * p % 5)) = true :=
+  ⟨fun _ _ => Nat.zero_le _, fun a _ => Int.natCast_nonneg a, by decide⟩
+
+/-- **The change of variables is a bijection of the box** (exact arithmetic): every table is the cumulative sum of its own
+increments, and the increments of a cumulative sum are the summands. -/
+theorem cumsum_diff_inverse {α : Type} [AddCommGroup α] (s1 n s2 : Nat) (c t : Nat → α) :
+    (∀ p, p < s1 * n * s2 → cumsumLoop (· + ·) s1 n s2 (diffAlong (· - ·) n s2 c) p = c p) ∧
+    (∀ p, p < s1 * n * s2 → diffAlong (· - ·) n s2 (cumsumLoop (· + ·) s1 n s2 t) p = t p) :=
+  ⟨fun _ hp => cumsum_diffAlong s1 n s2 c hp, fun _ hp => diffAlong_cumsum s1 n s2 t hp⟩
+
+-- (`cumsum_diff_inverse` has no hypotheses; a concrete instance on a 2 × 3 × 2 box:)
+example : (List.range 12).all (fun p =>
+    diffAlong (· - ·) 3 2 (cumsumLoop (· + ·) 2 3 2 (fun q : Nat => ((7 * q % 5 : Nat) : Int))) p == ((7 * p % 5 : Nat) : Int)) = true := by
+  decide
+
+/-- **Tables with non-negative increments = non-negative first slice + non-decreasing along the monotonic index**; so
+the image of the non-negative orthant under the change of variables is exactly the set of tables the property describes,
+and the executable checks `incNonnegB` / `monoAlongB` decide membership. -/
+theorem increments_nonneg_iff (s1 n s2 : Nat) (c : Nat → Rat) :
+    incNonnegB (fun a => decide (0 ≤ a)) (· - ·) s1 n s2 c = true ↔
+      (∀ i, i < s1 → ∀ k, k < s2 → 0 < n → 0 ≤ c (idx3 n s2 i 0 k)) ∧
+      monoAlongB (fun a b => decide (a ≤ b)) s1 n s2 c = true := by
+  have h1 : incNonnegB (fun a => decide (0 ≤ a)) (· - ·) s1 n s2 c = true ↔
+      ∀ p, p < s1 * n * s2 → 0 ≤ diffAlong (· - ·) n s2 c p := by
+    unfold incNonnegB
+    simp only [List.all_eq_true, List.mem_range, decide_eq_true_eq]
+  rw [h1, diffAlong_nonneg_iff s1 n s2 c]
+  constructor
+  · rintro ⟨a, b⟩; exact ⟨a, monoAlongB_of_le s1 n s2 c b⟩
+  · rintro ⟨a, b⟩; exact ⟨a, le_of_monoAlongB s1 n s2 c b⟩
+
+example : incNonnegB (fun a : Rat => decide (0 ≤ a)) (· - ·) 2 3 2 (fun p => (p : Rat)) = true := by decide +kernel
+
+/-- **`L t` is the cumulative sum, and `L` is injective** (any shape; `cumMat` is built column by column with the loop of
+`glamfit_complex`). -/
+theorem cumMat_spec {α : Type} [CommRing α] (s1 n s2 : Nat) :
+    (∀ (t : Fin (s1 * n * s2) → α) (p : Fin (s1 * n * s2)),
+      (cumMat α s1 n s2 *ᵥ t) p = cumsumLoop (· + ·) s1 n s2 (extZ t) p.val) ∧
+    (∀ t : Fin (s1 * n * s2) → α, cumMat α s1 n s2 *ᵥ t = 0 → t = 0) :=
+  ⟨cumMat_mulVec s1 n s2, cumMat_injective s1 n s2⟩
+
+example : cumMat ℚ 1 2 2 = !![1,0,0,0; 0,1,0,0; 1,0,1,0; 0,1,0,1] := by decide +kernel
+
+/-! ## 9. from non-decreasing coefficients to a non-decreasing surface (values, not derivatives) -/
+
+/-- **1-d core**: with non-decreasing coefficients, `x ≤ y` inside the fully supported region implies
+`Σ_j c_j B_j(x) ≤ Σ_j c_j B_j(y)` (any order, repeated knots allowed; no calculus: Abel summation over the tail sums
+`Σ_{l ≥ j} B_l`, which are non-decreasing in `x` by induction over the order). -/
+theorem spline_value_monotone_1d (d : Dim Rat) (x y : Rat) (hwf : d.WF)
+    (hlo : d.knots d.order ≤ x) (hxy : x ≤ y) (hhi : y ≤ d.knots d.naxes)
+    (hlt : d.knots d.order < d.knots d.naxes)
+    (c : Nat → Rat) (hc : ∀ j, j + 1 < d.naxes → c j ≤ c (j+1)) :
+    ∑ j ∈ range d.naxes, c j * Bsel d x 0 j ≤ ∑ j ∈ range d.naxes, c j * Bsel d y 0 j := by
+  obtain ⟨mx, hbx, hox⟩ := selInd_brk d x hwf.mono hlo (le_trans hxy hhi) hlt
+  obtain ⟨my, hby, _⟩ := selInd_brk d y hwf.mono (le_trans hlo hxy) hhi hlt
+  exact spline1d_mono hwf.mono hbx hby hxy (selInd_brk_le d x y hwf.mono hbx hby hxy) d.order hox c hc
+
+/-- Non-vacuity of the 1-d statement: order 2, knots `0..6`, 4 coefficients `c j = j`, from `x = 5/2` to `y = 7/2`
+inside the supported region `[2, 4]`. -/
+example : ∑ j ∈ range 4, ((j : Nat) : Rat) * Bsel (⟨2, 7, 4, 1, fun i => (i : Rat)⟩ : Dim Rat) (5/2) 0 j
+    ≤ ∑ j ∈ range 4, ((j : Nat) : Rat) * Bsel (⟨2, 7, 4, 1, fun i => (i : Rat)⟩ : Dim Rat) (7/2) 0 j :=
+  spline_value_monotone_1d (⟨2, 7, 4, 1, fun i => (i : Rat)⟩ : Dim Rat) (5/2) (7/2)
+    ⟨fun a b h => by show ((a : Int) : Rat) ≤ ((b : Int) : Rat); exact_mod_cast h, rfl⟩
+    (by show ((((2 : Nat) : Int)) : Rat) ≤ 5/2; norm_num) (by norm_num)
+    (by show (7/2 : Rat) ≤ ((((4 : Nat) : Int)) : Rat); norm_num)
+    (by show ((((2 : Nat) : Int)) : Rat) < ((((4 : Nat) : Int)) : Rat); norm_num)
+    (fun j => (j : Rat)) (fun j _ => by push_cast; linarith)
+
+/-- **C10, the surface itself**: if the coefficients are non-decreasing along dimension `m`, then moving the `m`-th
+coordinate from `xm` up to `ym` inside the fully supported region of that dimension (all other coordinates fixed,
+anywhere) does not decrease the value of the tensor-product spline — for every number of dimensions, every order
+(0 included), every sorted knot vector. -/
+theorem C10_surface_monotone (T : Table Rat) (m : Nat) (xs : List Rat) (ms : List BasisMode)
+    (dm : Dim Rat) (xm ym : Rat)
+    (hxs : xs.length = T.dims.length) (hms : ms.length = T.dims.length)
+    (hdm : T.dims[m]? = some dm) (hxm : xs[m]? = some xm)
+    (hmode : ∀ mo ∈ ms, mo = BasisMode.value)
+    (hwf : ∀ d ∈ T.dims, d.WF)
+    (hstride : ∀ e d, T.dims[e]? = some d →
+      d.stride = ((T.dims.drop (e+1)).map Dim.naxes).foldl (· * ·) 1)
+    (hlo : dm.knots dm.order ≤ xm) (hxy : xm ≤ ym) (hhi : ym ≤ dm.knots dm.naxes)
+    (hlt : dm.knots dm.order < dm.knots dm.naxes)
+    (hcoef : ∀ i, i < stride1 (T.dims.map Dim.naxes) m → ∀ j, j + 1 < dm.naxes →
+      ∀ k, k < stride2 (T.dims.map Dim.naxes) m →
+        T.coef (idx3 dm.naxes (stride2 (T.dims.map Dim.naxes) m) i j k : Nat)
+          ≤ T.coef (idx3 dm.naxes (stride2 (T.dims.map Dim.naxes) m) i (j+1) k : Nat)) :
+    specEval T xs ms ≤ specEval T (xs.set m ym) ms := by
+  show specSum T.coef (specRows T.dims xs ms) 1 0 ≤ specSum T.coef (specRows T.dims (xs.set m ym) ms) 1 0
+  have hwfm : dm.WF := hwf dm (List.mem_of_getElem? hdm)
+  apply specSum_dims_le T.coef dm xm ym
+    (fun c hc => spline_value_monotone_1d dm xm ym hwfm hlo hxy hhi hlt c hc)
+    m T.dims xs ms hxs hms hdm hxm hmode (fun d hd => (hwf d hd).mono) (DimsRM_of_index _ hstride) 1 (by norm_num) 0
+  intro i hi j hj k hk
+  rw [zero_add, zero_add]
+  exact hcoef i hi j hj k hk
+
+/-- the same with the executable monotonicity check of the driver as hypothesis -/
+theorem C10_surface_monotone_B (T : Table Rat) (m : Nat) (xs : List Rat) (ms : List BasisMode)
+    (dm : Dim Rat) (xm ym : Rat)
+    (hxs : xs.length = T.dims.length) (hms : ms.length = T.dims.length)
+    (hdm : T.dims[m]? = some dm) (hxm : xs[m]? = some xm)
+    (hmode : ∀ mo ∈ ms, mo = BasisMode.value)
+    (hwf : ∀ d ∈ T.dims, d.WF)
+    (hstride : ∀ e d, T.dims[e]? = some d →
+      d.stride = ((T.dims.drop (e+1)).map Dim.naxes).foldl (· * ·) 1)
+    (hlo : dm.knots dm.order ≤ xm) (hxy : xm ≤ ym) (hhi : ym ≤ dm.knots dm.naxes)
+    (hlt : dm.knots dm.order < dm.knots dm.naxes)
+    (hcoef : monoAlongB (fun a b => decide (a ≤ b)) (stride1 (T.dims.map Dim.naxes) m) dm.naxes
+      (stride2 (T.dims.map Dim.naxes) m) (fun p => T.coef (p : Nat)) = true) :
+    specEval T xs ms ≤ specEval T (xs.set m ym) ms :=
+  C10_surface_monotone T m xs ms dm xm ym hxs hms hdm hxm hmode hwf hstride hlo hxy hhi hlt
+    (le_of_monoAlongB _ _ _ (fun p => T.coef (p : Nat)) hcoef)
+
+/-- **End to end**: a table whose coefficients are (the exact values of) the output of the back-transform of
+`glamfit_complex` applied to any non-negative solver output is a surface non-decreasing along `m` on the fully supported
+region. -/
+theorem C10_fit_surface_monotone {δ : Type} [Preorder δ] (zd : δ) (mulS : δ → δ) (toF : δ → Rat)
+    (add : Rat → Rat → Rat) (x : Nat → δ)
+    (T : Table Rat) (m : Nat) (xs : List Rat) (ms : List BasisMode) (dm : Dim Rat) (xm ym : Rat)
+    (hmul : ∀ a, zd ≤ a → zd ≤ mulS a) (htoF : ∀ a, zd ≤ a → 0 ≤ toF a) (hadd : ∀ a s, 0 ≤ a → s ≤ add a s)
+    (hx : ∀ p, p < stride1 (T.dims.map Dim.naxes) m * dm.naxes * stride2 (T.dims.map Dim.naxes) m → zd ≤ x p)
+    (hT : ∀ p : Nat, T.coef (p : Nat) = backTransform mulS toF add (stride1 (T.dims.map Dim.naxes) m) dm.naxes
+      (stride2 (T.dims.map Dim.naxes) m) x p)
+    (hxs : xs.length = T.dims.length) (hms : ms.length = T.dims.length)
+    (hdm : T.dims[m]? = some dm) (hxm : xs[m]? = some xm)
+    (hmode : ∀ mo ∈ ms, mo = BasisMode.value)
+    (hwf : ∀ d ∈ T.dims, d.WF)
+    (hstride : ∀ e d, T.dims[e]? = some d →
+      d.stride = ((T.dims.drop (e+1)).map Dim.naxes).foldl (· * ·) 1)
+    (hlo : dm.knots dm.order ≤ xm) (hxy : xm ≤ ym) (hhi : ym ≤ dm.knots dm.naxes)
+    (hlt : dm.knots dm.order < dm.knots dm.naxes) :
+    specEval T xs ms ≤ specEval T (xs.set m ym) ms := by
+  apply C10_surface_monotone T m xs ms dm xm ym hxs hms hdm hxm hmode hwf hstride hlo hxy hhi hlt
+  intro i hi j hj k hk
+  rw [hT, hT]
+  exact (backTransform_monotone zd 0 mulS toF add hmul htoF hadd _ _ _ x hx).1 i hi j hj k hk
+
+/-- Non-vacuity of `C10_surface_monotone`: the 2×3×3 table of §6 (orders 1,1,1; coefficient `p` at flat position `p`),
+monotonic dimension 1, from `(3/2, 3/2, 3/2)` to `(3/2, 5/2, 3/2)`.  (`#eval` gives `11` and `14`.) -/
+example : specEval
+    (⟨[⟨1, 4, 2, 9, fun i => (i : Rat)⟩, ⟨1, 5, 3, 3, fun i => (i : Rat)⟩, ⟨1, 5, 3, 1, fun i => (i : Rat)⟩],
+      fun p => (p : Rat)⟩ : Table Rat)
+    [3/2, 3/2, 3/2] [BasisMode.value, BasisMode.value, BasisMode.value]
+    ≤ specEval
+    (⟨[⟨1, 4, 2, 9, fun i => (i : Rat)⟩, ⟨1, 5, 3, 3, fun i => (i : Rat)⟩, ⟨1, 5, 3, 1, fun i => (i : Rat)⟩],
+      fun p => (p : Rat)⟩ : Table Rat)
+    [3/2, 5/2, 3/2] [BasisMode.value, BasisMode.value, BasisMode.value] := by
+  apply C10_surface_monotone _ 1 [3/2, 3/2, 3/2] _ (⟨1, 5, 3, 3, fun i => (i : Rat)⟩ : Dim Rat) (3/2) (5/2) rfl rfl rfl rfl
+  · intro mo h
+    simp only [List.mem_cons, List.not_mem_nil, or_false, or_self] at h
+    exact h
+  · intro d hd
+    simp only [List.mem_cons, List.not_mem_nil, or_false] at hd
+    rcases hd with rfl | rfl | rfl <;>
+      exact ⟨fun a b h => by show ((a : Int) : Rat) ≤ ((b : Int) : Rat); exact_mod_cast h, rfl⟩
+  · intro e d h
+    rcases e with _ | _ | _ | e
+    · simp at h; subst h; rfl
+    · simp at h; subst h; rfl
+    · simp at h; subst h; rfl
+    · simp at h
+  · show ((((1 : Nat) : Int)) : Rat) ≤ 3/2; norm_num
+  · norm_num
+  · show (5/2 : Rat) ≤ ((((3 : Nat) : Int)) : Rat); norm_num
+  · show ((((1 : Nat) : Int)) : Rat) < ((((3 : Nat) : Int)) : Rat); norm_num
+  · intro i _ j _ k _
+    show (((idx3 _ _ i j k : Nat) : Int) : Rat) ≤ (((idx3 _ _ i (j+1) k : Nat) : Int) : Rat)
+    rw [idx3_succ]
+    exact_mod_cast Nat.le_add_right _ _
+
+/-- Non-vacuity of the `_B` form: the executable hypothesis holds for that table (`stride1 = 2`, `n = 3`, `stride2 = 3`). -/
+example : monoAlongB (fun a b : Rat => decide (a ≤ b)) 2 3 3 (fun p => ((p : Nat) : Rat)) = true := by decide +kernel
+
+/-- Non-vacuity of the end-to-end form: solver output `x p = p % 2` in `Nat` (`zd = 0`), scaling by 3, conversion `Nat → ℚ`,
+exact addition; the table `T.coef = backTransform …` satisfies `hT` by definition. -/
+example : (∀ a : Nat, 0 ≤ a → 0 ≤ 3 * a) ∧ (∀ a : Nat, 0 ≤ a → (0 : Rat) ≤ (a : Rat)) ∧
+    (∀ a s : Rat, 0 ≤ a → s ≤ a + s) ∧ (∀ p, p < 2 * 3 * 3 → 0 ≤ (fun p : Nat => p % 2) p) ∧
+    (∀ p : Nat, (fun q : Int => backTransform (fun a : Nat => 3 * a) (fun a => (a : Rat)) (· + ·) 2 3 3 (fun p => p % 2) q.toNat) (p : Nat)
+      = backTransform (fun a : Nat => 3 * a) (fun a => (a : Rat)) (· + ·) 2 3 3 (fun p => p % 2) p) :=
+  ⟨fun _ _ => Nat.zero_le _, fun a _ => Nat.cast_nonneg a, fun a s h => le_add_of_nonneg_left h, fun _ _ => Nat.zero_le _,
+   fun p => by simp⟩
+
+/-! ## 10. the inactive-constraint clause, for the same objective -/
+
+section InactiveB
+variable {N : ℕ} {α : Type} [Field α] [LinearOrder α] [IsStrictOrderedRing α]
+
+/-- the objective of the T-spline problem (matrix `LᵀAL`, right-hand side `Lᵀb`) **is** the objective of the B-spline
+problem evaluated at `c = L t` -/
+theorem tobjective_eq (A L : Matrix (Fin N) (Fin N) α) (b t : Fin N → α) :
+    qf (Lᵀ * A * L) (Lᵀ *ᵥ b) t = qf A b (L *ᵥ t) := qf_tcoords A L b t
+
+/-- **Inactive constraint, in B-spline coordinates.**  `A` symmetric positive definite (the normal matrix of the
+penalised least-squares objective `qf A b`), `L` an injective change of variables `c = L t`, `c` the solution of the normal
+equations `A c = b`.  If `c = L t` with `t ≥ 0` (the unconstrained fit has non-negative increments), then
+1. `c` minimises `qf A b` over *all* vectors (it is the unconstrained fit),
+2. the T-problem `(LᵀAL, Lᵀb)` — the **same objective** by `tobjective_eq` — is positive definite and `t` is a KKT point of it,
+3. `c` minimises `qf A b` over the cone `{L z : z ≥ 0}`, uniquely,
+4. whatever KKT point `t'` of the T-problem a non-negative solver returns, the back-transform `L t'` **is** `c`. -/
+theorem inactive_constraint_B (A L : Matrix (Fin N) (Fin N) α) (b c t : Fin N → α) (hA : SPD A)
+    (hL : ∀ v, L *ᵥ v = 0 → v = 0) (hsol : A *ᵥ c = b) (hc : c = L *ᵥ t) (ht : ∀ i, 0 ≤ t i) :
+    (∀ z, qf A b c ≤ qf A b z) ∧
+    SPD (Lᵀ * A * L) ∧ KKT (Lᵀ * A * L) (Lᵀ *ᵥ b) t ∧
+    (∀ z : Fin N → α, (∀ i, 0 ≤ z i) → qf A b c ≤ qf A b (L *ᵥ z) ∧ (qf A b (L *ᵥ z) = qf A b c → z = t)) ∧
+    (∀ t' : Fin N → α, KKT (Lᵀ * A * L) (Lᵀ *ᵥ b) t' → L *ᵥ t' = c) := by
+  have hspd := spd_tcoords A L hA hL
+  have hT : (Lᵀ * A * L) *ᵥ t = Lᵀ *ᵥ b := tcoords_normal_eq A L b t (by rw [← hc]; exact hsol)
+  obtain ⟨hk, hmin⟩ := inactive_constraint (Lᵀ * A * L) (Lᵀ *ᵥ b) t hspd hT ht
+  refine ⟨normal_eq_global_min A b c hA hsol, hspd, hk, fun z hz => ?_, fun t' hk' => ?_⟩
+  · have := hmin z hz
+    rw [tobjective_eq, tobjective_eq, ← hc] at this
+    exact this
+  · have h1 := (kkt_unique_min _ _ t' hspd hk' t ht).1
+    have h2 := hmin t' hk'.1
+    have : t' = t := h2.2 (le_antisymm h1 h2.1)
+    rw [this, hc]
+
+end InactiveB
+
+/-- non-vacuity of `inactive_constraint_B`: `A = exA` (C11), `L` the 2 × 2 lower-triangular ones matrix, `t = (1, 1)`,
+`c = L t = (1, 2)`, `b = A c = (4, 5)` -/
+example : SPD (Nnls.toMat 2 exA) ∧ (∀ v, cumMat ℚ 1 2 1 *ᵥ v = 0 → v = 0) ∧
+    (Nnls.toMat 2 exA) *ᵥ ![1, 2] = ![4, 5] ∧ (![1, 2] : Fin 2 → ℚ) = cumMat ℚ 1 2 1 *ᵥ ![1, 1] ∧
+    ∀ i : Fin 2, (0:ℚ) ≤ ![1, 1] i :=
+  ⟨exA_spd, cumMat_injective 1 2 1, by decide +kernel, by decide +kernel, by decide +kernel⟩
+
+/-- **Inactive constraint for the cumulative-sum change of variables, any shape `s1 × n × s2`.**  If the unconstrained fit
+`c` (solution of `A c = b`, `A` positive definite) has a non-negative first slice and non-negative increments along the
+monotonic index (`diffAlong`), then for **every** KKT point `t'` of the T-problem `(LᵀAL, Lᵀb)`, `L = cumMat`, the
+cumulative sum of `t'` computed by the loop of `glamfit_complex` (in exact arithmetic) returns exactly `c`. -/
+theorem inactive_constraint_cumsum {α : Type} [Field α] [LinearOrder α] [IsStrictOrderedRing α] (s1 n s2 : Nat)
+    (A : Matrix (Fin (s1 * n * s2)) (Fin (s1 * n * s2)) α) (b c : Fin (s1 * n * s2) → α) (hA : SPD A)
+    (hsol : A *ᵥ c = b)
+    (hinc : ∀ p, p < s1 * n * s2 → 0 ≤ diffAlong (· - ·) n s2 (extZ c) p) :
+    ∀ t' : Fin (s1 * n * s2) → α,
+      KKT ((cumMat α s1 n s2)ᵀ * A * cumMat α s1 n s2) ((cumMat α s1 n s2)ᵀ *ᵥ b) t' →
+      ∀ p : Fin (s1 * n * s2), cumsumLoop (· + ·) s1 n s2 (extZ t') p.val = c p := by
+  intro t' hk p
+  let t : Fin (s1 * n * s2) → α := fun q => diffAlong (· - ·) n s2 (extZ c) q.val
+  have hc : c = cumMat α s1 n s2 *ᵥ t := by
+    funext q
+    rw [cumMat_mulVec, cumsum_congr s1 n s2 (extZ t) (diffAlong (· - ·) n s2 (extZ c))
+      (fun r hr => extZ_val t ⟨r, hr⟩) q.isLt,
+      cumsum_diffAlong s1 n s2 (extZ c) q.isLt, extZ_val]
+  have := (inactive_constraint_B A (cumMat α s1 n s2) b c t hA (cumMat_injective s1 n s2) hsol hc
+    (fun q => hinc q.val q.isLt)).2.2.2.2 t' hk
+  rw [← cumMat_mulVec, this]
+
+/-- non-vacuity: shape 1 × 2 × 1, `A = exA`, `c = (1, 2)` has increments `(1, 1) ≥ 0` -/
+example : SPD (Nnls.toMat 2 exA) ∧ (Nnls.toMat 2 exA) *ᵥ ![1, 2] = ![4, 5] ∧
+    ∀ p, p < 1 * 2 * 1 → (0 : ℚ) ≤ diffAlong (· - ·) 2 1 (extZ (![1, 2] : Fin (1 * 2 * 1) → ℚ)) p :=
+  ⟨exA_spd, by decide +kernel, by decide +kernel⟩
+
+/-- **The clause for the objective the property states** (`objective P` of `Spec/Fit.lean`, the penalised weighted
+least-squares objective of C09 — data term *and* penalty in B-spline coefficients): if the unconstrained minimiser is the
+cumulative sum of non-negative increments `t`, it minimises `objective P` over all tables with non-negative increments,
+and (normal matrix positive definite) it is the only such minimiser: every `t'` that does as well equals `t` on the box. -/
+theorem inactive_constraint_objective (P : FitProblem Rat) (hP : NormalEq.PosDef P.ncoef (Mf P)) (s1 n s2 : Nat)
+    (hN : s1 * n * s2 = P.ncoef) (t : Nat → Rat)
+    (hmin : ∀ c' : Nat → Rat, objective P (cumsumLoop (· + ·) s1 n s2 t) ≤ objective P c') :
+    (∀ t' : Nat → Rat, (∀ p, p < s1 * n * s2 → 0 ≤ t' p) →
+      objective P (cumsumLoop (· + ·) s1 n s2 t) ≤ objective P (cumsumLoop (· + ·) s1 n s2 t')) ∧
+    (∀ t' : Nat → Rat, objective P (cumsumLoop (· + ·) s1 n s2 t') ≤ objective P (cumsumLoop (· + ·) s1 n s2 t) →
+      ∀ p, p < s1 * n * s2 → t' p = t p) := by
+  refine ⟨fun t' _ => hmin _, fun t' hle => ?_⟩
+  have hne : ∀ i < P.ncoef, NormalEq.mulVec P.ncoef (Mf P) (cumsumLoop (· + ·) s1 n s2 t) i = rf P i := by
+    rw [NormalEq.normal_eq_minimises_full (objConst P) (specM_symm P) hP]
+    intro c'
+    rw [← objective_eq_fullObj P, ← objective_eq_fullObj P]
+    exact hmin c'
+  rw [objective_eq_fullObj P, objective_eq_fullObj P, NormalEq.objective_shift] at hle
+  have huniq := NormalEq.minimiser_unique (specM_symm P) hP hne hle
+  exact cumsum_injective s1 n s2 t' t (fun p hp => huniq p (by omega))
+
+/-- non-vacuity: the example problem of C09 (`exP`: two coefficients, minimiser `(1, 1)`) with shape 1 × 2 × 1 and
+increments `t = (1, 0)` -/
+example : NormalEq.PosDef exP.ncoef (Mf exP) ∧ 1 * 2 * 1 = exP.ncoef ∧
+    ∀ c' : Nat → Rat, objective exP (cumsumLoop (· + ·) 1 2 1 (fun p => if p = 0 then 1 else 0)) ≤ objective exP c' := by
+  refine ⟨exP_posDef, rfl, ?_⟩
+  intro c'
+  rw [objective_eq_fullObj exP, objective_eq_fullObj exP]
+  revert c'
+  rw [← NormalEq.normal_eq_minimises_full (objConst exP) (specM_symm exP) exP_posDef]
+  intro i hi
+  have hi' : i < 2 := hi
+  have e : ∀ q, q < 2 → cumsumLoop (· + ·) 1 2 1 (fun p => if p = 0 then (1 : Rat) else 0) q = (fun _ => (1 : Rat)) q := by
+    intro q hq
+    have hq' : q = 0 ∨ q = 1 := by omega
+    rcases hq' with rfl | rfl <;> decide +kernel
+  rw [← exP_normal i hi]
+  unfold NormalEq.mulVec
+  apply Finset.sum_congr rfl
+  intro j hj
+  rw [e j (Finset.mem_range.mp hj)]
+
+/-- **The code's objective in one dimension is the same objective.**  With a single dimension the only penalty is that of
+the monotonic dimension itself, which `calc_penalty(mono = 1)` builds from the finite-difference matrix times `L`
+(`finitediff · tril`): `Lᵀ G L + λ (D L)ᵀ (D L) = Lᵀ (G + λ DᵀD) L` — the change of basis of the B-spline normal matrix, so
+`inactive_constraint_B` applies to what the code solves (the check finds the 1-d inactive case agreeing to 1e-7).  In two
+or more dimensions this fails: `inactive_clause_fails_for_code_penalty`. -/
+theorem code_objective_1d {N K : ℕ} {α : Type} [Field α] (G L : Matrix (Fin N) (Fin N) α) (D : Matrix (Fin K) (Fin N) α)
+    (lam : α) :
+    Lᵀ * G * L + lam • ((D * L)ᵀ * (D * L)) = Lᵀ * (G + lam • (Dᵀ * D)) * L := by
+  rw [Matrix.transpose_mul, Matrix.mul_add, Matrix.add_mul, Matrix.mul_smul, Matrix.smul_mul]
+  congr 2
+  simp only [Matrix.mul_assoc]
+
+-- (`code_objective_1d` has no hypotheses: nothing to instantiate.)
+
+/-! ### the clause is false for the objective the unrepaired code minimises in ≥ 2 dimensions (known finding) -/
+
+/-- 2 × 2 table, monotonic dimension 0 (`s1 = 1, n = 2, s2 = 2`): `L = cumMat` -/
+def cexL : Matrix (Fin 4) (Fin 4) ℚ := cumMat ℚ 1 2 2
+/-- smoothness penalty of dimension 1 in B-spline coefficients, `I₂ ⊗ DᵀD` with `D = (−1 1)` (first differences) -/
+def cexP : Matrix (Fin 4) (Fin 4) ℚ := !![1,-1,0,0; -1,1,0,0; 0,0,1,-1; 0,0,-1,1]
+/-- the B-spline normal matrix: data term `BᵀWB = 1` plus the penalty -/
+def cexA : Matrix (Fin 4) (Fin 4) ℚ := 1 + cexP
+/-- what `glamfit_complex` + `calc_penalty` assemble for the monotonic fit: the data term in T-coordinates, but the
+penalty of the *other* dimension with the identity in the monotonic slot (`I₂ ⊗ DᵀD` again, instead of `LᵀL ⊗ DᵀD`) -/
+def cexAcode : Matrix (Fin 4) (Fin 4) ℚ := cexLᵀ * 1 * cexL + cexP
+def cexb : Fin 4 → ℚ := ![0, 3, 1, 7]
+def cexc : Fin 4 → ℚ := ![1, 2, 3, 5]
+def cext : Fin 4 → ℚ := ![6/11, 27/11, 20/11, 35/11]
+def cexAcodeN : Nnls.Mat := fun i j =>
+  (([[3,-1,1,0], [-1,3,0,1], [1,0,2,-1], [0,1,-1,2]] : List (List ℚ)).getD i []).getD j 0
+
+/-- **Counterexample for the code's objective** (known finding `inactive:differs:nd`; `fixes/C10-1.diff` repairs it).
+The unconstrained fit `c = (1,2;3,5)` of the 2 × 2 problem `(cexA, cexb)` has non-negative increments along dimension 0,
+so by `inactive_constraint_B` the monotonic fit for the *same* objective returns `c`.  The matrix the code assembles
+(`cexAcode`) differs from the change of basis `LᵀAL`; it is positive definite, `t' = (6,27,20,35)/11 ≥ 0` solves its
+normal equations — so `t'` is the unique solution of the non-negative problem the code hands to its solver — and the
+back-transform `L t' = (6,27,26,62)/11` is not `c`. -/
+theorem inactive_clause_fails_for_code_penalty :
+    cexA *ᵥ cexc = cexb ∧ (∀ p, p < 1 * 2 * 2 → 0 ≤ diffAlong (· - ·) 2 2 (extZ cexc) p) ∧
+    cexAcode ≠ cexLᵀ * cexA * cexL ∧
+    SPD cexAcode ∧ KKT cexAcode (cexLᵀ *ᵥ cexb) cext ∧
+    (∀ t' : Fin 4 → ℚ, KKT cexAcode (cexLᵀ *ᵥ cexb) t' → t' = cext) ∧
+    cexL *ᵥ cext ≠ cexc := by
+  have hN : cexAcode = Nnls.toMat 4 cexAcodeN := by decide +kernel
+  have hspd : SPD cexAcode := by
+    rw [hN]; exact spdCert_sound 4 cexAcodeN (by decide +kernel)
+  have hk : KKT cexAcode (cexLᵀ *ᵥ cexb) cext := by
+    have hg : gradM cexAcode (cexLᵀ *ᵥ cexb) cext = 0 := by decide +kernel
+    refine ⟨by decide +kernel, fun i => by rw [hg]; exact le_refl _, fun i _ => by rw [hg]; rfl⟩
+  refine ⟨by decide +kernel, by decide +kernel, by decide +kernel, hspd, hk, fun t' hk' => ?_, by decide +kernel⟩
+  have h1 := kkt_unique_min _ _ cext hspd hk t' hk'.1
+  have h2 := kkt_unique_min _ _ t' hspd hk' cext hk.1
+  exact h1.2 (le_antisymm h2.1 h1.1)
 
 end PsV
